@@ -46,7 +46,7 @@ class Exec:
         s.max_steps = max_steps; s.qtimeout = qtimeout_ms; s.harness_prefix = harness_prefix
         s.conc_inputs = conc_inputs; s.trace = []     # conc mode: list of inputs consumed in order; trace of outs/asserts
         s.called = set(); s.path_samples = []; s.completed_models = []; s.keep_models = 0
-        s.domain_checks = False; s.domain_issues = []; s.record_reads = False
+        s.domain_checks = False; s.domain_issues = []; s.record_reads = False; s.eager_writes = False; s.eager_seen = set()
         s.srt = z3.RealSort() if mode == 'real' else F64
         s.deadline = None; s.fork_select = True; s.libm_axioms = True; s.libm_mono = True; s.div_as_mul = True; s.ackermann = False; s.ack_vars = {}; s.ack_keep = []; s.vcache = {}; s.slicing = (mode == 'real')
     # ------------------------------------------------------------ solver
@@ -723,6 +723,34 @@ class Exec:
             w = s.mod.funcs.get('__wrap_' + name)
             if w is not None and not fr.fn.name.startswith('__wrap_' + name): name = '__wrap_' + name
         s.called.add(name)
+        if name == 'sym_run_ctors':
+            # run the dynamic initialisers of one repository translation unit (namespace-scope std::string constants etc.); the executor never runs global constructors on its own
+            tu = s.mem.cstr(st, args[0]); f = s.mod.funcs.get('_GLOBAL__sub_I_' + tu)
+            if f is None: raise Unsupported('no global constructor function for translation unit ' + tu)
+            s.prep(f); nf = Frame(f); nf.block = f.order[0]; nf.code = f.code[nf.block]; nf.ret_to = (None, nxt)
+            st.frames.append(nf); return
+        if name == 'sym_decide':
+            # harness primitive: case split on a condition, returns a concrete bool on each side (keeps oracle code free of ite terms)
+            c = args[0]
+            def setret(frame, v):
+                if dest is not None: frame.regs[dest] = iv(1, v)
+                if nxt is None: frame.ip += 1
+                else: s.goto(frame, nxt)
+            if isinstance(c[2], int): return setret(fr, c[2] & 1)
+            cond = z3.simplify(as_cond(c))
+            if z3.is_true(cond): return setret(fr, 1)
+            if z3.is_false(cond): return setret(fr, 0)
+            d_ = st.subst.get(cond.get_id())
+            if d_ is not None: return setret(fr, int(d_))
+            ncond = z3.Not(cond)
+            ft, mt = s.feasible(st, cond); ff, mf = s.feasible(st, ncond)
+            if ft and ff:
+                s.stats['forks'] += 1
+                t = st.clone(); t.pc.append(ncond); t.model = mf; t.subst[cond.get_id()] = False; setret(t.frames[-1], 0); work.append(t)
+                st.pc.append(cond); st.model = mt; st.subst[cond.get_id()] = True; return setret(fr, 1)
+            if ft: return setret(fr, 1)
+            if ff: return setret(fr, 0)
+            raise PathEnd('INFEASIBLE')
         for pat, cb in s.overrides.items():
             if pat in name:
                 return ret(cb(s, st, args, name))
